@@ -16,7 +16,7 @@ def summarize(r):
 def run(tier, seed):
     ctx = core.Ctx("C19", tier, seed, LEVEL)
     nproc = 4 if tier == "quick" else 20
-    srcs = streams.exploration_sources(ctx, tier, seed, caps={"soup": 10000, "arms": 15000, "c15": 15000}, which=("soup", "arms", "c15", "repo"))
+    srcs = streams.exploration_sources(ctx, tier, seed, caps={"soup": 10000, "arms": 15000, "c15": 15000}, which=("soup", "arms", "c15", "flat", "repo"))
     inp = [{"id": i, "src": s[2]} for i, s in enumerate(srcs)]
     runs = [[] for _ in inp]
     first = core.expand(inp, "syn1", repeat=2)                 # twice in one process
